@@ -211,6 +211,12 @@ def body_cli(case, rec):
             rec.note(case, False, classes | {"error"})
             return
         haps = [h.lower() for h in case.get("haps", [])]
+        # <root>.<v>.primary.curated.* is the Primary haplotype's assembly if there is one (its scaffolds may all have
+        # been tagged away), else the assembly of scaffolds that belong to no haplotype
+        try:
+            has_primary = "Primary" in remap.run_api(case).assemblies
+        except Exception:  # noqa: BLE001
+            has_primary = True
         outs = []
         for f in sorted(out.parent.iterdir()):
             if not f.name.endswith(".agp"):
@@ -230,7 +236,7 @@ def body_cli(case, rec):
                 import re
 
                 m = re.match(r"x\.(.+)\.1\.primary\.curated\.", nm) or re.match(r"x\.1\.(.+)s\.curated\.", nm)
-                key = m.group(1) if m and m.group(1) in haps else ("primary" if case.get("primary_mode") else "none")
+                key = m.group(1) if m and m.group(1) in haps else ("primary" if case.get("primary_mode") and has_primary else "none")
                 if ".curated." not in nm:
                     raise Violation(f"curated assembly file without '.curated.' in its name: {nm}")
             for n, rows in ref.read_agp(f.read_text())[1]:
@@ -239,7 +245,17 @@ def body_cli(case, rec):
             # map the merged file back to the haplotype key the statement speaks of
             _d, _l, primary_hap = expected_destinations(case)
             others = [h for h in haps if h != primary_hap]
-            outs = [((others[0] if k == "other_haplotypes" and len(others) == 1 else k), n, r) for k, n, r in outs]
+
+            def merged_key(rows):
+                # the merged file holds the other haplotype's assembly and, if there is one, the assembly of scaffolds
+                # that belong to no haplotype: told apart by the haplotype prefix of the scaffold's first contig
+                first = next((r[1] for r in rows if r[0] == "F"), "")
+                for h in others:
+                    if first.lower().startswith(h.lower() + "_"):
+                        return h
+                return "none" if any(not n_.lower().startswith(tuple(h_.lower() + "_" for h_ in haps)) for n_, _r in case["input"]) else (others[0] if len(others) == 1 else "other_haplotypes")
+
+            outs = [((merged_key(r) if k == "other_haplotypes" else k), n, r) for k, n, r in outs]
         try:
             judge(case, outs, classes)
         finally:
@@ -253,7 +269,7 @@ SUBS = [
         budget={"quick": 16000, "thorough": 300000}, desc="dict returned by assemblies_with_scaffolds_fused vs expected destination per piece"),
     Sub("reuse", kind="hyp", strategy=reuse_cases, body=body_reuse,
         budget={"quick": 4000, "thorough": 60000}, desc="the same IndexedAssembly object remapped twice (first in Target mode with scaffolds absent, then with the case's map): the second result is judged"),
-    Sub("cli_primary", kind="hyp", strategy=lambda: gen.tagged_case(max_scaffolds=5, max_contigs=4, two_haplotypes=True, primary_mode=True, piece_tag_weight=3), body=body_cli,
+    Sub("cli_primary", kind="hyp", strategy=lambda: gen.tagged_case(max_scaffolds=6, max_contigs=4, two_haplotypes=True, primary_mode=True, piece_tag_weight=3, unprefixed_in_primary=True), body=body_cli,
         budget={"quick": 160, "thorough": 2000}, desc="Primary mode (one curated haplotype) through the CLI: primary / all_haplotigs / haplotigs / contaminants / falseduplicates files"),
     Sub("cli", kind="hyp", strategy=lambda: gen.tagged_case(max_scaffolds=4, max_contigs=5), body=body_cli,
         budget={"quick": 240, "thorough": 3000}, desc="same through the CLI, destination judged by output file name"),
